@@ -109,7 +109,7 @@ impl<const N: usize> CobsAccumulator<N> {
              obls=["C08.V.acc.feed"]),
         dict(kind="raw", name="<impl-close>", text="}\n"),
     ],
-    trailer="""
+    trailer_parts=[(["new0", "feed_ref", "feed", "extend_unchecked"], """
 // The documented feed loop, as an exec driver: terminates for every N >= 1 (decreases on the C09 measure) and
 // needs no precondition on the chunk (total). Only the contract of feed is used here, not its body.
 fn documented_loop<const N: usize>(acc: &mut CobsAccumulator<N>, chunk: &[u8])
@@ -137,6 +137,6 @@ fn smoke_acc() {
     let r = a.feed_ref::<u8>(&data);
     assert(a.wf());
 }
-""",
+""")],
     trailer_obls=["C09.L.acc.documented_loop"],
 )
